@@ -210,6 +210,7 @@ From PasfmtVerif Require Import Model.Format Proofs.FormatProofs Proofs.FormatTo
 Theorem C04_format_fragment_total :
   forall (alnum : bytes -> bool) (cfg : fconfig) (s : bytes) (segs : list seg)
     (ss : Fragment.stmts),
+  Fragment.wf ss = true ->
   lex_segments s = Some segs ->
   map seg_ty segs = Fragment.render_prog ss ->
   format_model alnum cfg s = inl (fm_out alnum cfg segs).
